@@ -150,6 +150,7 @@ protected:
         //lock must be locked to unlock
         assert(_requests.load(std::memory_order_relaxed) != nullptr);
         //unlock operation check _queue, whether there are requests
+        COCLS_VERIF_POINT("m_unlock");
         if (!_queue) [[likely]] {
             //if queue is empty, try to unlock. Try to replace doorman with nullptr;
             auto x = doorman();
@@ -180,6 +181,7 @@ protected:
     bool ready() {
         //we expect nullptr in _requests, try to put doorman there
         awaiter *n = nullptr;
+        COCLS_VERIF_POINT("m_try");
         bool ok = _requests.compare_exchange_strong(n, doorman());
         //if ok = true, object is guarder by doorman
         return ok;
@@ -191,10 +193,12 @@ protected:
         //the awaiter must not be touched after the CAS which publishes it, unless
         //we found the mutex unlocked: the owner can hand over the ownership and resume it
         //at any time. So decide from the value observed by the successful CAS
+        COCLS_VERIF_POINT("m_sub");
         awaiter *prev = nullptr;
         do {
             aw->_next = prev;
         } while (!_requests.compare_exchange_weak(prev, aw, std::memory_order_release));
+        COCLS_VERIF_POINT("m_pub");
         //if the previous top was null, the lock was unlock
         if (prev == nullptr) [[likely]] {
             //because current awaiter will be destroyed, we need to replace self
@@ -215,6 +219,7 @@ protected:
         assert("Can't build queue if there are items in it" && _queue == nullptr);
         //atomically swap top of _requests with doorman
         //we use acquire order - to see changes on _next
+        COCLS_VERIF_POINT("m_bq");
         awaiter *req = _requests.exchange(doorman(), std::memory_order_acquire);
         //if req is defined and until stop is reached
         while (req  && req != stop) {
